@@ -3,15 +3,15 @@ package main
 func init() { registry["C09"] = checkC09 }
 
 func checkC09(e *RunEnv) *CheckResult {
-	paths := []string{"d/x", "d/y", "ad/x", "d.c", "a(b", "g", "d0", "n", "d/s/t/u", "d/n2"}
-	args := []string{"d/x", "d/y", "ad/x", "d.c", "a(b", "g", "d0", "n", "d", "ad", "d/s", "d/s/t", "nope", "d/nope", "d/", "./d", "d/.", "./g", "d//x"}
+	paths := []string{"d/x", "d/y", "ad/x", "d.c", "a(b", "g", "d0", "n", "d/s/t/u", "d/n2", "big"}
+	args := []string{"d/x", "d/y", "ad/x", "d.c", "a(b", "g", "d0", "n", "big", "d", "ad", "d/s", "d/s/t", "nope", "d/nope", "d/", "./d", "d/.", "./g", "d//x"}
 	pairs := [][]string{{"d/x", "ad/x"}, {"d", "g"}, {"g", "nope"}, {"nope", "g"}, {"g", "n"}, {"d/y", "d"}, {"d/n2", "d"}, {"d/s", "d"}}
 	var base []Step
 	base = append(base, seedS0()...)
 	for _, p := range paths {
 		base = append(base, Write(p, v1(p)))
 	}
-	seed1 := append(append([]Step{}, base...), Run("add", "d/x", "d/y", "d/s", "ad", "d.c", "a(b", "g", "d0"), Run("commit", "-m", "c1"))
+	seed1 := append(append([]Step{}, base...), Run("add", "d/x", "d/y", "d/s", "ad", "d.c", "a(b", "g", "d0", "big"), Run("commit", "-m", "c1"))
 	seed2 := append(append([]Step{}, seed1...), Write("d/x", v2("d/x")), Run("add", "d/x"), Write("d/x", "d/x v3\n"), Delete("d/y"), Rmdir("ad"), Run("rm", "g"), Write("n", v1("n")), Run("add", "n"))
 	spec := &Spec{
 		Seeds: []Seed{{"all-committed", seed1}, {"mixed", seed2},
